@@ -71,15 +71,19 @@ def main():
         t0 = time.time()
         src = '%s/out/%s' % (WT, V)
         env = 'CARGO_NET_OFFLINE=true CARGO_TARGET_DIR=%s/target RUST_BACKTRACE=0' % WT
-        sh('cd %s && git checkout -q -- . ; rm -rf tests/demo_seed.rs' % WT)
+        sh('cd %s && git checkout -q -- . ; git clean -fdq -- src examples benches ; rm -rf tests/demo_seed.rs' % WT)
         if sh('cd %s && git apply --check %s/patch.diff' % (WT, src)).returncode != 0:
             return {"seed": name, "error": "patch does not apply"}
         sh('cd %s && git apply %s/patch.diff' % (WT, src))
         suite = sh('cd %s && %s cargo test --workspace --no-fail-fast --offline 2>&1 | grep -E "^test result" | head -1' % (WT, env)).stdout.strip()
         sh('mkdir -p %s/tests && cp %s/demo.rs %s/tests/demo_seed.rs' % (WT, src, WT))
-        demo_with = sh('cd %s && %s cargo test --offline --test demo_seed 2>&1 | grep -E "^test result" | head -1' % (WT, env)).stdout.strip()
-        sh('cd %s && git checkout -q -- .' % WT)
-        demo_without = sh('cd %s && %s cargo test --offline --test demo_seed 2>&1 | grep -E "^test result" | head -1' % (WT, env)).stdout.strip()
+        # a demonstration of a release-only defect says so in its first line
+        rel = '--release ' if 'RUN WITH --release' in open(src + '/demo.rs').read()[:300] else ''
+        demo_with = sh('cd %s && %s cargo test %s--offline --test demo_seed 2>&1 | grep -E "^test result" | head -1' % (WT, env, rel)).stdout.strip()
+        sh('cd %s && git checkout -q -- . ; git clean -fdq -- src examples benches' % WT)
+        demo_without = sh('cd %s && %s cargo test %s--offline --test demo_seed 2>&1 | grep -E "^test result" | head -1' % (WT, env, rel)).stdout.strip()
+        if rel:
+            demo_with += ' [--release]'; demo_without += ' [--release]'
         sh('rm -f %s/tests/demo_seed.rs; rmdir %s/tests 2>/dev/null' % (WT, WT))
         # patched tree for the checks
         sh('cd %s && git apply %s/patch.diff' % (WT, src))
@@ -99,7 +103,7 @@ def main():
             if r.returncode == 1: detected.append(c)
             if r.returncode not in (0, 1):
                 per[c]["tail"] = out[-400:]
-        sh('cd %s && git checkout -q -- .' % WT)
+        sh('cd %s && git checkout -q -- . ; git clean -fdq -- src examples benches' % WT)
         if nometa[0]:
             return {"seed": name, "detected_by": detected, "first": {c: per[c]["first_violation"] for c in per}, "machinery": [c for c in per if per[c]["rc"] not in (0, 1)], "secs": round(time.time() - t0)}
         dst = '/verif/seeded/%s' % name
